@@ -1,6 +1,6 @@
 //@include prelude/head.rs
 //@include prelude/hash.rs
-broadcast use {vstd::std_specs::hash::group_hash_axioms, axh::axiom_uuid_key_model, ax::axiom_string_eq_spec, ax::axiom_string_obeys_eq, ax::axiom_string_to_string, ringspec::axiom_aead_roundtrip, ringspec::axiom_aead_auth, ringspec::axiom_kdf_len, ringspec::axiom_seal_len};
+broadcast use {vstd::std_specs::hash::group_hash_axioms, axh::axiom_uuid_key_model, ax::axiom_string_eq_spec, ax::axiom_string_obeys_eq, ax::axiom_string_to_string, ringspec::axiom_aead_roundtrip, ringspec::axiom_aead_auth, ringspec::axiom_kdf_len, ringspec::axiom_seal_len, axr::axiom_as_ref_bytes};
 //@props C13
 //@include regions/errors.rs
 //@include prelude/ring.rs
